@@ -380,6 +380,13 @@ impl Gen {
         };
         // very rarely an event of more than 64 KiB (u16-sized length fields, dozens of chunks)
         let n = if self.p.size_w[3] > 0 && self.rng.chance(1, 500) { self.rng.range(65_400, 72_000) as usize } else { n };
+        // and events whose encoded size lands on either side of a power of two (4 KiB, 16 KiB, 64 KiB)
+        let n = if self.p.size_w[3] > 0 && self.rng.chance(1, 120) {
+            let b = *self.rng.pick(&[4096u64, 4096, 16384, 65536]);
+            self.rng.range(b - 420, b + 80) as usize
+        } else {
+            n
+        };
         let seed = self.rng.next();
         (0..n).map(|i| (seed.wrapping_mul(i as u64 + 1) >> 13) as u8).collect()
     }
@@ -1377,9 +1384,342 @@ fn long_session_trace(prop: &str, seed: u64) -> Trace {
     }
 }
 
+/// One dimension taken far beyond what the ordinary mixes reach: hundreds of tags in one event,
+/// of values in one tag or one filter list, values of kilobytes, a thousand events of one key
+/// or of one second, hundreds of versions at one address, of deletion requests, dozens of
+/// restarts. Observed sparsely (after removals, vanishes, restarts and at the end); every query
+/// in the trace is judged on its own.
+fn scale_trace(prop: &str, seed: u64) -> Trace {
+    let mut p = profile(prop);
+    p.size_w = [20, 80, 0, 0, 0];
+    let mut g = Gen::new(seed, p);
+    let pk = g.authors[0];
+    let other = g.authors[1];
+    let base = QuerySpec::all_allowed();
+    let mut ops: Vec<Op> = vec![Op::Clock(Some(g.clock))];
+    let mut push_store = |g: &mut Gen, ops: &mut Vec<Op>, e: EvSpec| {
+        g.apply_store_to_gen_model(&e);
+        ops.push(Op::Store(e));
+    };
+    // a little ordinary history first
+    for _ in 0..g.rng.range(2, 6) {
+        let e = g.new_event();
+        push_store(&mut g, &mut ops, e);
+    }
+    let dim = match prop {
+        // rebuild-heavy dimensions for the restart property
+        "C16" => *g.rng.pick(&[3u64, 3, 3, 5, 5, 6, 6, 0, 2, 4, 9]),
+        "C18" | "C17" => *g.rng.pick(&[0u64, 0, 0, 1, 2, 3, 3, 8, 4, 5, 6, 7, 9, 10]),
+        "C10" | "C09" => *g.rng.pick(&[4u64, 4, 9, 9, 10, 10, 10, 0, 1, 2, 3, 5, 7]),
+        "C04" | "C15" => *g.rng.pick(&[10u64, 10, 10, 3, 3, 2, 2, 6, 0, 4]),
+        _ => g.rng.below(11),
+    };
+    match dim {
+        0 => {
+            // one event with hundreds of tags (distinct, repeated, value-less ones among them)
+            let n = *g.rng.pick(&[255usize, 256, 257, 300, 1100]);
+            let mut tags: Vec<Vec<String>> = vec![];
+            for i in 0..n {
+                let letter = *g.rng.pick(&["t", "p", "e", "r", "T"]);
+                let v = match g.rng.below(6) {
+                    0 => "same".to_string(),
+                    1 => return_valueless(&mut tags, letter),
+                    _ => format!("v{i}"),
+                };
+                if !v.is_empty() {
+                    tags.push(vec![letter.to_string(), v]);
+                }
+            }
+            let kind = *g.rng.pick(&[1u16, 30000, 10000]);
+            if kind == 30000 {
+                let pos = g.rng.usize(tags.len());
+                tags.insert(pos, vec!["d".into(), "wide".into()]);
+            }
+            let e = EvSpec { id: g.rng.bytes32(), pk, kind, at: T0 + 5, tags: tags.clone(), content: vec![1, 2, 3] };
+            push_store(&mut g, &mut ops, e.clone());
+            // found through every one of its tags
+            let mut seen_pairs = std::collections::BTreeSet::new();
+            let mut every: Vec<QuerySpec> = vec![];
+            for t in &tags {
+                if t.len() >= 2 && t[0].len() == 1 && seen_pairs.insert((t[0].clone(), t[1].clone())) {
+                    let c = t[0].chars().next().unwrap();
+                    every.push(QuerySpec { tags: vec![(c, vec![t[1].clone()])], ..base.clone() });
+                }
+            }
+            for q in &every {
+                ops.push(Op::Query(q.clone()));
+            }
+            for i in [0usize, tags.len() / 2, tags.len() - 1] {
+                if tags[i].len() >= 2 && tags[i][0].len() == 1 {
+                    let c = tags[i][0].chars().next().unwrap();
+                    ops.push(Op::Query(QuerySpec { tags: vec![(c, vec![tags[i][1].clone()])], ..base.clone() }));
+                    ops.push(Op::Query(QuerySpec { authors: vec![pk], tags: vec![(c, vec![tags[i][1].clone()])], ..base.clone() }));
+                }
+            }
+            if kind != 1 {
+                let mut newer = e.clone();
+                newer.id = g.rng.bytes32();
+                newer.at += 1;
+                newer.tags.truncate(3);
+                if kind == 30000 {
+                    newer.tags.push(vec!["d".into(), "wide".into()]);
+                }
+                push_store(&mut g, &mut ops, newer);
+            } else {
+                let _ = g.model.apply_remove(&e.id);
+                ops.push(Op::Remove(e.id));
+            }
+            // ... and through none of them any more
+            for q in every {
+                ops.push(Op::Query(q));
+            }
+        }
+        1 => {
+            // a tag with hundreds of values; filters with hundreds of values
+            let n = *g.rng.pick(&[255usize, 256, 300, 700]);
+            let mut t = vec!["t".to_string()];
+            for i in 0..n {
+                t.push(format!("w{i}"));
+            }
+            let e = EvSpec { id: g.rng.bytes32(), pk, kind: 1, at: T0 + 3, tags: vec![t, vec!["t".into(), "last".into()]], content: vec![] };
+            push_store(&mut g, &mut ops, e);
+            let many: Vec<String> = (0..n).map(|i| format!("z{i}")).chain(["last".to_string()]).collect();
+            ops.push(Op::Query(QuerySpec { tags: vec![('t', many.clone())], ..base.clone() }));
+            ops.push(Op::Query(QuerySpec { tags: vec![('t', vec!["w0".into()])], ..base.clone() }));
+            ops.push(Op::Query(QuerySpec { tags: vec![('t', vec!["w5".into()])], ..base.clone() }));
+            ops.push(Op::Query(QuerySpec { authors: vec![pk], tags: vec![('t', many)], ..base.clone() }));
+        }
+        2 => {
+            // values, identifiers and contents of kilobytes (an event larger than a page, a chunk, 64 KiB)
+            // (the binary form keeps string lengths and tag offsets in 16 bits: values stay below
+            // that; the content has no such bound)
+            let n = *g.rng.pick(&[2049usize, 4097, 5000, 60_000]);
+            let long: String = std::iter::repeat('L').take(n).collect();
+            let e1 = EvSpec { id: g.rng.bytes32(), pk, kind: 1, at: T0 + 1, tags: vec![vec!["t".into(), long.clone()], vec!["t".into(), "after".into()]], content: vec![] };
+            let e2 = EvSpec { id: g.rng.bytes32(), pk, kind: 30001, at: T0 + 2, tags: vec![vec!["d".into(), long.clone()]], content: vec![7; if n > 50_000 { 10 } else { 66_000 }] };
+            let mut e3 = e2.clone();
+            e3.id = g.rng.bytes32();
+            e3.at += 1;
+            push_store(&mut g, &mut ops, e1.clone());
+            push_store(&mut g, &mut ops, e2);
+            push_store(&mut g, &mut ops, e3);
+            ops.push(Op::Query(QuerySpec { tags: vec![('t', vec!["after".into()])], ..base.clone() }));
+            ops.push(Op::Query(QuerySpec { tags: vec![('t', vec![long.clone()])], ..base.clone() }));
+            ops.push(Op::Query(QuerySpec { authors: vec![pk], tags: vec![('d', vec![long])], ..base.clone() }));
+            ops.push(Op::Reopen(ReopenKind::Close));
+            let _ = g.model.apply_remove(&e1.id);
+            ops.push(Op::Remove(e1.id));
+        }
+        3 | 8 => {
+            // a thousand events of one key (dim 8: all of one second), limits at the edges
+            // (beyond 1024 in half of the runs: pages of 512 / 1024 entries, rings of 1024 slots)
+            let n = if g.rng.chance(1, 2) { g.rng.range(1026, 1400) } else { g.rng.range(514, 1023) } as usize;
+            let mut ids = vec![];
+            for i in 0..n {
+                let at = if dim == 8 { T0 + 7 } else { T0 + (i as u64 % 97) };
+                let e = EvSpec { id: g.rng.bytes32(), pk, kind: if i % 5 == 0 { 7 } else { 1 }, at, tags: vec![vec!["t".into(), format!("g{}", i % 3)]], content: vec![(i & 0xff) as u8] };
+                ids.push(e.id);
+                push_store(&mut g, &mut ops, e);
+            }
+            for l in [0u32, 1, 255, 256, 257, 1000, 1023, 1024, 1025, 65535, 65536, u32::MAX] {
+                ops.push(Op::Query(QuerySpec { authors: vec![pk], limit: Some(l), ..base.clone() }));
+            }
+            ops.push(Op::Query(QuerySpec { authors: vec![pk], kinds: vec![7], ..base.clone() }));
+            ops.push(Op::Query(base.clone()));
+            ops.push(Op::Query(QuerySpec { since: Some(T0), until: Some(T0 + 200), ..base.clone() }));
+            ops.push(Op::Query(QuerySpec { tags: vec![('t', vec!["g1".into()])], limit: Some(600), ..base.clone() }));
+            ops.push(Op::Query(QuerySpec { ids: ids.iter().copied().step_by(3).collect(), ..base.clone() }));
+            if prop != "C16" && g.rng.chance(1, 2) {
+                let _ = g.model.apply_vanish(&pk);
+                ops.push(Op::Vanish(pk));
+            } else {
+                ops.push(Op::Rebuild);
+            }
+            ops.push(Op::Query(QuerySpec { authors: vec![pk], ..base.clone() }));
+        }
+        4 => {
+            // hundreds of versions at one address: ascending, then stale ones
+            let n = *g.rng.pick(&[255usize, 256, 257, 400]);
+            let kind = *g.rng.pick(&[0u16, 10000, 30000]);
+            let tags = if kind == 30000 { vec![vec!["d".to_string(), "many".to_string()]] } else { vec![] };
+            if kind == 30000 && g.rng.chance(1, 2) {
+                // dozens of the key's events of OTHER kinds carry the same identifier, all of them
+                // newer than anything at the address
+                for k in 0..g.rng.range(64, 90) {
+                    let e = EvSpec { id: g.rng.bytes32(), pk, kind: 30001 + k as u16, at: T0 + 5000 + k, tags: tags.clone(), content: vec![k as u8] };
+                    push_store(&mut g, &mut ops, e);
+                }
+            }
+            for i in 0..n {
+                let e = EvSpec { id: g.rng.bytes32(), pk, kind, at: T0 + i as u64, tags: tags.clone(), content: vec![(i & 0xff) as u8, (i >> 8) as u8] };
+                push_store(&mut g, &mut ops, e);
+            }
+            for back in [1u64, 2, 255, 256] {
+                let e = EvSpec { id: g.rng.bytes32(), pk, kind, at: (T0 + n as u64).saturating_sub(1 + back), tags: tags.clone(), content: vec![9] };
+                push_store(&mut g, &mut ops, e);
+            }
+            ops.push(Op::Query(QuerySpec { authors: vec![pk], kinds: vec![kind], ..base.clone() }));
+            ops.push(Op::Reopen(ReopenKind::Drop));
+        }
+        5 => {
+            // hundreds of deletion requests, each naming one own event; then resubmissions
+            let n = *g.rng.pick(&[255usize, 256, 300, 1025, 1100]);
+            let mut victims = vec![];
+            for i in 0..n {
+                let e = EvSpec { id: g.rng.bytes32(), pk, kind: 1, at: T0 + 1, tags: vec![], content: vec![(i & 0xff) as u8, (i >> 8) as u8] };
+                victims.push(e.clone());
+                push_store(&mut g, &mut ops, e);
+            }
+            for v in &victims {
+                let d = EvSpec { id: g.rng.bytes32(), pk, kind: 5, at: T0 + 2, tags: vec![vec!["e".into(), hex(&v.id)]], content: vec![] };
+                push_store(&mut g, &mut ops, d);
+            }
+            for v in [&victims[0], &victims[n / 2], &victims[n - 1]] {
+                push_store(&mut g, &mut ops, (*v).clone());
+            }
+            ops.push(Op::Rebuild);
+            for v in [&victims[1], &victims[n - 2]] {
+                push_store(&mut g, &mut ops, (*v).clone());
+            }
+        }
+        9 => {
+            // one deletion request with dozens to hundreds of effective targets, then one it may
+            // not name (the whole request is refused and nothing of it stays), then the same
+            // request without the foreign target
+            let n = *g.rng.pick(&[31usize, 32, 33, 34, 64, 65, 127, 128, 129, 255, 256, 257, 600]);
+            let mut victims = vec![];
+            for i in 0..n {
+                let e = EvSpec { id: g.rng.bytes32(), pk, kind: 1, at: T0 + 1, tags: vec![], content: vec![(i & 0xff) as u8, (i >> 8) as u8] };
+                victims.push(e.clone());
+                push_store(&mut g, &mut ops, e);
+            }
+            let foreign = EvSpec { id: g.rng.bytes32(), pk: other, kind: 1, at: T0 + 1, tags: vec![], content: vec![0xfe] };
+            push_store(&mut g, &mut ops, foreign.clone());
+            let mut tags: Vec<Vec<String>> = victims.iter().map(|v| vec!["e".to_string(), hex(&v.id)]).collect();
+            let own_only = tags.clone();
+            tags.push(vec!["e".into(), hex(&foreign.id)]);
+            let bad = EvSpec { id: g.rng.bytes32(), pk, kind: 5, at: T0 + 2, tags, content: vec![] };
+            push_store(&mut g, &mut ops, bad);
+            // the targets are still there: resubmitting one is a duplicate, not a deleted event
+            push_store(&mut g, &mut ops, victims[0].clone());
+            push_store(&mut g, &mut ops, victims[n - 1].clone());
+            ops.push(Op::Query(QuerySpec { authors: vec![pk], ..base.clone() }));
+            let good = EvSpec { id: g.rng.bytes32(), pk, kind: 5, at: T0 + 2, tags: own_only, content: vec![] };
+            push_store(&mut g, &mut ops, good);
+            push_store(&mut g, &mut ops, victims[n / 2].clone());
+            ops.push(Op::Reopen(ReopenKind::Close));
+        }
+        10 => {
+            // offsets around 2^31 and 2^32: versions, address deletions and removals whose targets
+            // lie beyond the boundary while other events sit at the same offset modulo 2^32
+            let boundary: u64 = *g.rng.pick(&[1u64 << 32, 1 << 32, 1 << 31, 65535 * 2048, 65536 * 2048]);
+            // somebody else's note, whose offset the key's first event beyond the boundary will
+            // share modulo the boundary (when the boundary is a power of two)
+            let off_b = g.offset_counter;
+            let note = EvSpec { id: g.rng.bytes32(), pk: other, kind: 1, at: T0 + 1, tags: vec![], content: vec![0xb0; 33] };
+            push_store(&mut g, &mut ops, note);
+            let v1 = EvSpec { id: g.rng.bytes32(), pk, kind: 10002, at: T0 + 1, tags: vec![], content: vec![1; 20] };
+            let w1 = EvSpec { id: g.rng.bytes32(), pk, kind: 30002, at: T0 + 1, tags: vec![vec!["d".into(), "far".into()]], content: vec![1; 20] };
+            push_store(&mut g, &mut ops, v1);
+            push_store(&mut g, &mut ops, w1);
+            if boundary.is_power_of_two() && g.rng.chance(2, 3) {
+                ops.push(Op::Inflate(boundary + off_b));
+                // lands exactly `boundary` above the note; a deletion of its address follows
+                let w2 = EvSpec { id: g.rng.bytes32(), pk, kind: 30002, at: T0 + 2, tags: vec![vec!["d".into(), "far".into()]], content: vec![0xb0; 33] };
+                push_store(&mut g, &mut ops, w2);
+                let del = EvSpec { id: g.rng.bytes32(), pk, kind: 5, at: T0 + 3, tags: vec![vec!["a".into(), format!("30002:{}:far", hex(&pk))]], content: vec![] };
+                push_store(&mut g, &mut ops, del);
+            } else {
+                ops.push(Op::Inflate(boundary - g.rng.range(0, 700)));
+            }
+            for k in 0..g.rng.range(2, 6) {
+                let e = EvSpec { id: g.rng.bytes32(), pk: other, kind: 1, at: T0 + 2, tags: vec![vec!["t".into(), "far".into()]], content: vec![k as u8; 200] };
+                push_store(&mut g, &mut ops, e);
+            }
+            // the holders move beyond the boundary, then are displaced / deleted there
+            let mut last = None;
+            for k in 2..5u64 {
+                let v = EvSpec { id: g.rng.bytes32(), pk, kind: 10002, at: T0 + k, tags: vec![], content: vec![k as u8; 20] };
+                let w = EvSpec { id: g.rng.bytes32(), pk, kind: 30002, at: T0 + k, tags: vec![vec!["d".into(), "far".into()]], content: vec![k as u8; 20] };
+                last = Some(v.id);
+                push_store(&mut g, &mut ops, v);
+                push_store(&mut g, &mut ops, w);
+            }
+            let del = EvSpec { id: g.rng.bytes32(), pk, kind: 5, at: T0 + 9, tags: vec![vec!["a".into(), format!("30002:{}:far", hex(&pk))]], content: vec![] };
+            push_store(&mut g, &mut ops, del);
+            if let Some(id) = last {
+                let _ = g.model.apply_remove(&id);
+                ops.push(Op::Remove(id));
+            }
+            ops.push(Op::Query(QuerySpec { tags: vec![('t', vec!["far".into()])], ..base.clone() }));
+            ops.push(Op::Query(QuerySpec { authors: vec![pk, other], ..base.clone() }));
+            ops.push(Op::Reopen(ReopenKind::Close));
+        }
+        6 => {
+            // dozens of restarts of every kind with a store between any two, a dozen rebuilds
+            let n = g.rng.range(30, 50);
+            for i in 0..n {
+                let e = g.new_event();
+                push_store(&mut g, &mut ops, e);
+                ops.push(match (i % 7, g.rng.below(3)) {
+                    (6, _) => Op::Rebuild,
+                    (_, 0) => Op::Reopen(ReopenKind::Drop),
+                    (_, 1) => Op::Reopen(ReopenKind::Close),
+                    _ => Op::Reopen(ReopenKind::Copy),
+                });
+            }
+        }
+        _ => {
+            // filters with hundreds of authors / kinds / ids
+            for i in 0..40u64 {
+                let e = EvSpec { id: g.rng.bytes32(), pk: if i % 2 == 0 { pk } else { other }, kind: (i % 4) as u16 + 1, at: T0 + i, tags: vec![], content: vec![i as u8] };
+                push_store(&mut g, &mut ops, e);
+            }
+            let n = *g.rng.pick(&[255usize, 256, 300, 1000]);
+            let mut authors: Vec<B32> = (0..n).map(|_| g.rng.bytes32()).collect();
+            authors.push(pk);
+            let mut kinds: Vec<u16> = (0..n as u32).map(|k| (2000 + k) as u16).collect();
+            kinds.push(2);
+            let strict = QuerySpec::default();
+            for k in [1usize, 2, 31, 32, 33, 40, 64, 65, 255, 256] {
+                if k <= authors.len() {
+                    let mut a: Vec<B32> = authors[..k - 1].to_vec();
+                    a.push(pk);
+                    ops.push(Op::Query(QuerySpec { authors: a, ..strict.clone() }));
+                }
+            }
+            ops.push(Op::Query(QuerySpec { authors: authors.clone(), ..strict.clone() }));
+            ops.push(Op::Query(QuerySpec { authors: authors.clone(), kinds: kinds.clone(), ..strict.clone() }));
+            ops.push(Op::Query(QuerySpec { authors: authors.clone(), ..base.clone() }));
+            ops.push(Op::Query(QuerySpec { kinds: kinds.clone(), ..base.clone() }));
+            ops.push(Op::Query(QuerySpec { authors, kinds, ..base.clone() }));
+            let mut ids: Vec<B32> = (0..n).map(|_| g.rng.bytes32()).collect();
+            ids.extend(g.model.retrievable.iter().copied().take(5));
+            ops.push(Op::Query(QuerySpec { ids, ..base.clone() }));
+        }
+    }
+    ops.push(Op::Query(base));
+    Trace {
+        cfg: Cfg { prop: prop.to_string(), mode: Mode::Seq, seed, blocker: false, extra_tables: 0, obs_level: 9, drain: false },
+        ops,
+        threads: vec![],
+        schedule: vec![],
+        expect: None,
+    }
+}
+
+/// helper of `scale_trace`: push a value-less tag and return the empty marker
+fn return_valueless(tags: &mut Vec<Vec<String>>, letter: &str) -> String {
+    tags.push(vec![letter.to_string()]);
+    String::new()
+}
+
 pub fn generate(prop: &str, seed: u64) -> Trace {
     if matches!(prop, "C18" | "C05" | "C17") && seed % 64 == 0 {
         return bulk_trace(prop, seed);
+    }
+    if !matches!(prop, "C12" | "C13") && seed % 64 == 3 {
+        return scale_trace(prop, seed);
     }
     if matches!(prop, "C04" | "C15") && seed % 32 == 1 {
         return long_session_trace(prop, seed);
